@@ -58,6 +58,8 @@ def ob_parse_render(name, tindex, positions):
                 inst = H.from_string(m)
             except (ValueError, TypeError) as e:
                 return ("rejected",)
+            if getattr(inst, "checksum", "x") is None:
+                return ("config-string",)      # settings without a digest: not a hash of anything (some formats normalise these on purpose)
             out = inst.to_string()
             low = (SStr.lift(out).lower(), m.lower()) if hexish and isinstance(out, (str, SStr)) else None
             return ("accepted", out, low)
